@@ -231,8 +231,20 @@ def pairing(f, dv, g, gv, base, target, site):
         return False, 'constructor record is not a local'
     kp = set()
     na = 0
+    def stores_param(h, idx):
+        if idx >= len(h.params):
+            return False
+        pv = ('p', h.params[idx]['name'])
+        return any(is_assign(m2) and m2[1] == '=' and nocast(m2[3]) == pv and nocast(m2[2])[0] in ('g', 'gs', 'm')
+                   for b2, i2, l2, m2 in h.nodes())
     for b, i, ln, m in g.nodes():
-        if is_assign(m) and m[1] == '=' and nocast(m[3]) == rec and nocast(m[2])[0] in ('g', 'gs', 'm'):
+        hit = is_assign(m) and m[1] == '=' and nocast(m[3]) == rec and nocast(m[2])[0] in ('g', 'gs', 'm')
+        if not hit and m[0] == 'call' and callee_name(m):
+            # the append may live in a helper of the unit that receives the record
+            h = g.unit.funcs.get(callee_name(m))
+            if h is not None and h is not g and h.entry is not None:
+                hit = any(nocast(a) == rec and stores_param(h, ai) for ai, a in enumerate(m[2]))
+        if hit:
             k, U = kinds_at_site(g, gv, b, i)
             kp |= k
             na += 1
